@@ -9,7 +9,7 @@ from __future__ import annotations
 
 import itertools
 
-from pyabv.impl import impl
+from pyabv.impl import Failpoint, at_depth, impl
 from pyabv.props.common import ref_parse
 
 RULE = (
@@ -22,7 +22,7 @@ RULE = (
     "op the full probe panel runs on every live evaluator. distinct_nontrivial = distinct histories with >= 1 "
     "failing recompile or >= 2 evaluators. Plus 'ephemeral' histories whose source strings are built on the fly, have equal "
     "length and are dropped (and garbage-collected) right after use."
-    " Added later: collision pairs under Adler-32, CRC-32, byte sums and digests truncated to 32 bits; late failures beyond keywords (unencodable text, nesting beyond the Python compiler's limits, thorough: a 2600-rung ladder); experiments named like evaluator attributes; copies taken at different moments of a history."
+    " Added later: collision pairs under Adler-32, CRC-32, byte sums and digests truncated to 32 bits; late failures beyond keywords (unencodable text, nesting beyond the Python compiler's limits, thorough: a 2600-rung ladder); experiments named like evaluator attributes; copies taken at different moments of a history; transient faults (round 9): operations issued while the k-th function start inside the repository raises an injected exception (sys.monitoring PY_START, swept over the whole clean run of a recompile) or from a call stack 2..90 frames below the recursion limit - the failed operation must change nothing and the same text must be judged on its merits afterwards, on the same, a bystander and a new evaluator."
 )
 ASSUMPTIONS = [
     "model: an evaluator behaves like a fresh ExperimentEvaluator(last text it accepted); texts are valid / invalid "
@@ -63,6 +63,10 @@ VALID = {
     "R_name2": 'def recompile { salt: "other" splitters: uid return "r3" weighted 1, "r4" weighted 1 }',
     "R_name3": 'def run_experiment { splitters: uid return "r5" weighted 1, "r6" weighted 1 }',
     "U_cafe": 'def exp { splitters: uid return "caf\u00e9" weighted 1, "x" weighted 1 }',
+    # a 40-arm else-if ladder: deep enough that a call issued near the recursion limit fails somewhere inside it
+    "L_ladder40": 'def exp { splitters: uid if n == 0 { return "l0" weighted 1, "m0" weighted 2 } '
+                  + " ".join(f'else if n == {i} {{ return "l{i}" weighted 1, "m{i}" weighted {i} }}' for i in range(1, 40))
+                  + ' else { return "le" weighted 1, "me" weighted 3 } }',
     "F_shared": 'def exp { splitters: uid, plan if plan in ("pro", "max") { return 1 weighted 1, 2 weighted 1 } else '
                 '{ return 0.5 weighted 1 } }',
 }
@@ -174,7 +178,39 @@ class Lifecycle:
                     ctx.count("copy-not-supported")
                 trace.append((op, slot, name, None))
                 continue
-            if op == "new":
+            faulted = False
+            if op.startswith("fault-"):
+                # the operation is issued while a transient fault is in the air: the k-th function of the repository
+                # that starts raises (fault-fp:k), or the call comes from a stack with little head room left
+                # (fault-deep:frames).  Whatever happens then, the rule is the same as ever: an operation that raised
+                # changed nothing, one that returned switched completely - and the text keeps its class afterwards.
+                kind, _, arg = op[6:].partition(":")
+                import contextlib
+                import io
+
+                def attempt(slot=slot, text=text):
+                    if slot in slots:
+                        slots[slot].recompile(text)
+                        return None
+                    return im.Evaluator(text)
+
+                fp = None
+                try:
+                    with contextlib.redirect_stdout(io.StringIO()), contextlib.redirect_stderr(io.StringIO()):
+                        if kind == "fp":
+                            with Failpoint(int(arg)) as fp:
+                                made = attempt()
+                        else:
+                            made = at_depth(int(arg), attempt)
+                    if made is not None:
+                        slots[slot] = made
+                except Exception as e:  # noqa: BLE001
+                    raised = type(e).__name__
+                faulted = raised in ("InjectedFault", "RecursionError") or (fp is not None and fp.fired_in is not None)
+                ctx.count("transient/" + kind + ("/raised" if raised else "/survived"))
+                if fp is not None and fp.fired_in:
+                    ctx.seen("failpoints", fp.fired_in)
+            elif op == "new":
                 c = im.construct(text)
                 if c[0] == "ok":
                     slots[slot] = c[1]
@@ -194,13 +230,17 @@ class Lifecycle:
             if raised is not None:
                 failing += 1
             # (a)/(b): accept / reject according to the class of the text
-            if name in VALID and raised is not None:
+            if faulted and raised is not None:
+                pass  # the fault explains the exception; the state check below still applies
+            elif name in VALID and raised is not None:
                 return self.violate("valid-text-rejected", "C11/valid-text-rejected", ops, trace, step, layer, error=raised)
-            if name in INVALID and raised is None:
+            if faulted and raised is not None:
+                pass
+            elif name in INVALID and raised is None:
                 same_before = any(t[2] == name and t[3] is not None for t in trace[:-1])
                 mech = "C11/invalid-text-silent-on-repeat" if same_before else "C11/invalid-text-accepted"
                 return self.violate("invalid-text-accepted", mech, ops, trace, step, layer)
-            if name in LATE_FAIL or name in EXTRA_LATE:
+            if (name in LATE_FAIL or name in EXTRA_LATE) and not faulted:
                 prev = self.accepts.setdefault(name, raised is None)
                 if prev != (raised is None):
                     return self.violate("inconsistent-acceptance", "C11/invalid-text-silent-on-repeat", ops, trace, step, layer)
@@ -395,6 +435,40 @@ def run(ctx):
         else:
             ctx.nontrivial("ephemeral", hi, tuple(trace))
             ctx.count("ephemeral/histories")
+    # transient faults: an operation fails for a reason that has nothing to do with its text (a fault injected at the
+    # k-th function start inside the repository, or a call issued with little stack left); the evaluator must be left
+    # as it was, and the same text offered again - to this evaluator, to a bystander, to a new one - is judged on its
+    # own merits.  Fault points are swept over the whole length of a clean run of the operation.
+    pairs = [("A", "C_fields"), ("E_salt", "L_ladder40"), ("C_fields", "A_weights"), ("A", "bad_keyword"), ("B_name", "late_keyword"),
+             ("L_ladder40", "U_cafe")]
+    for cur, nxt in pairs:
+        c = im.construct(TEXTS[cur])
+        if c[0] != "ok":
+            continue
+        with Failpoint() as probe:
+            try:
+                c[1].recompile(TEXTS[nxt])
+            except Exception:  # noqa: BLE001
+                pass
+        total = probe.events
+        ctx.note("failpoint_span/" + cur + "->" + nxt, total)
+        step = max(1, total // (ctx.n(40, 100000)))
+        for k in range(1 + (rnd.randrange(step) if step > 1 else 0), total + 2, step):
+            idx += 1
+            if not ctx.mine(idx):
+                continue
+            f = f"fault-fp:{k}"
+            tails = ([("recompile", 0, nxt), ("new", 2, nxt), ("recompile", 1, nxt)], [(f, 0, nxt), ("recompile", 0, nxt)],
+                     [(f, 2, nxt), ("new", 2, nxt), ("recompile", 0, nxt)], [("recompile", 1, nxt), ("recompile", 0, cur), (f, 0, nxt), ("recompile", 0, nxt)])
+            lc.run_history([("new", 0, cur), ("new", 1, "A_labels"), (f, 0, nxt)] + tails[k % len(tails)], "transient-failpoint")
+        rooms = list(range(2, 90, 1 if not ctx.quick() else 4))
+        for room in rooms:
+            idx += 1
+            if not ctx.mine(idx):
+                continue
+            f = f"fault-deep:{room + (rnd.randrange(4) if ctx.quick() else 0)}"
+            lc.run_history([("new", 0, cur), ("new", 1, "A_labels"), (f, 0, nxt), ("recompile", 0, nxt), ("new", 2, nxt), (f, 1, nxt),
+                            ("recompile", 1, nxt)], "transient-deep")
     # random histories
     n = ctx.n(1500, 100000)
     hlen = 25 if ctx.quick() else 50
